@@ -1,5 +1,6 @@
 import TFV.Properties.Split
 import TFV.Properties.Src.GetNJobs
+import TFV.Properties.Src.SplitPop
 #print axioms TFV.Split.C16_cover
 #print axioms TFV.Split.C16_cover_weak
 #print axioms TFV.Split.C16_cuts
@@ -11,3 +12,5 @@ import TFV.Properties.Src.GetNJobs
 #print axioms TFV.Split.C16_getFitness
 #print axioms TFV.SrcTie.C16_src_get_n_jobs
 #print axioms TFV.SrcTie.C16_src_get_n_jobs_range
+#print axioms TFV.SrcTie.C16_src_split_population
+#print axioms TFV.SrcTie.C16_src_split_covers
